@@ -228,6 +228,9 @@ def build_umat(u):
         um = fem.Hyperelastic(fun, parallel=par, **p)
         if bulk is not None:
             um = um & fem.Volumetric(bulk=bulk)
+        if u.get("third"):
+            # a chain of three: (a & b) & c
+            um = um & fem.NeoHookeCompressible(mu=u["third"]["mu"], lmbda=u["third"]["lmbda"])
         return um
     if name == "Plastic":
         return fem.MaterialStrain(
@@ -402,6 +405,13 @@ class World:
             pts = self._points(it["points"])
             cp = int(self._points(it["centerpoint"])[0])
             pts = pts[pts != cp]
+            # the point list as a caller may write it: ascending, descending, or two sets concatenated
+            order = pick(self.seed, "multipoint-order", 3)
+            if order == 1:
+                pts = pts[::-1].copy()
+            elif order == 2 and len(pts) > 2:
+                h_ = len(pts) // 2
+                pts = np.concatenate([pts[h_:], pts[:h_]])
             if it.get("negative_index"):
                 cp = cp - self.mesh.npoints  # the same point, counted from the end (as in the docs: -1)
             cls = getattr(fem, t)
@@ -502,9 +512,17 @@ class World:
         b, ramp_bc = self._build_case(bc)
         b = dict(b)
         for c in bc.get("extra", []):
-            b[c["name"]] = self._custom_boundary(c)
+            bnd = self._custom_boundary(c)
+            if c.get("field", 0) != 0 and len(b) > 1:
+                # a boundary on another field shares no unknowns with the others: its place in the
+                # dictionary (first, between the boundaries of the displacement field, last) is free
+                entries = list(b.items())
+                entries.insert(pick(self.seed, "extra-position", len(entries) + 1), (c["name"], bnd))
+                b = dict(entries)
+            else:
+                b[c["name"]] = bnd
             if c.get("ramped"):
-                ramp_bc[c["name"]] = b[c["name"]]
+                ramp_bc[c["name"]] = bnd
         return b, ramp_bc
 
     def _custom_boundary(self, c):
@@ -608,6 +626,10 @@ class World:
 
     def _build_step(self, s):
         items = [self.items[k] for k in s.get("items", range(len(self.items)))]
+        if pick(self.seed, "items-order", 4) == 0 and getattr(items[-1], "field", None) is self.field:
+            # loads before bodies, bodies swapped: the sum does not care (documented: without x0 the
+            # unknowns are the field of the FIRST item, so that one must carry the model's container)
+            items = items[::-1]
         ramp = {}
         for r in s.get("ramp", []):
             tgt = r["target"]
@@ -628,6 +650,8 @@ class World:
             elif all(isinstance(v, np.ndarray) for v in vals) and len({v.shape for v in vals}) == 1:
                 vals = np.asarray(vals, dtype=float)  # one table, a row per substep
             ramp[obj] = vals
+        if len(ramp) > 1 and pick(self.seed, "ramp-order", 3) == 0:
+            ramp = dict(reversed(list(ramp.items())))
         bnames = s.get("boundaries")
         if bnames is None:
             bounds = self.boundaries
